@@ -1,4 +1,6 @@
 import CssVerif.Model.Media
+import CssVerif.Model.ProdEngine
+import CssVerif.Gen.C17Grammar
 /-!
 Driver for C17 (stateful: the state is one `MediaList`).
 
@@ -11,9 +13,11 @@ requests (one per line)                         reply
   item INT            item(i)                   outcome
   obs                                           obs
   mq TOKS             MediaQuery(text)          ok TYPE TEXT ITEMS | bad | unsupported
+  cmpq TOKS           derived query parser vs the engine on the captured grammar      same | unsupported | differ …
+  cmpl F TOKS         derived list parser vs the engine on the captured grammars      same | unsupported | differ …
 TOKS: `_` (no token) or tokens `TYPE/valhex/texthex` joined by `,`;  MEDIUM: TOKS or `!` (the empty string)
 -/
-open CssVerif.Proto CssVerif.Media
+open CssVerif.Proto CssVerif.Media CssVerif.ProdEngine
 
 def ttOf (s : String) : TT :=
   match s with
@@ -78,6 +82,19 @@ def obs (m : ML) : String :=
   " items=" ++ joinOr "," (m.seq.map fun | .comment _ => "C" | .query _ => "Q") ++
   " toks=" ++ joinOr "," (m.toks.map showTok)
 
+def showItems (l : List LItem) : String :=
+  joinOr ";" (l.map fun | .comment t => "C/" ++ encCps t.val | .query q => showMQ q)
+
+/-- derived parser vs engine: `same` when both reject, both are outside the model, or both give equal results -/
+def cmpOut {α : Type} [DecidableEq α] (a b : POut α) (sh : α → String) : String :=
+  match a, b with
+  | .ok x, .ok y => if x = y then "same:ok" else "differ derived=" ++ sh x ++ " engine=" ++ sh y
+  | .bad, .bad => "same:bad"
+  | .unsupported, _ => "unsupported"
+  | _, .unsupported => "unsupported"
+  | .ok x, .bad => "differ derived=" ++ sh x ++ " engine=bad"
+  | .bad, .ok y => "differ derived=bad engine=" ++ sh y
+
 def pyBool (b : Bool) : String := if b then "True" else "False"
 
 def step (m : ML) (line : String) : ML × String :=
@@ -119,6 +136,15 @@ def step (m : ML) (line : String) : ML × String :=
         | .bad => "bad"
         | .unsupported => "unsupported")
     | none => (m, "bad-op")
+  | ["cmpq", t] =>
+    match decToks t with
+    | some t => (m, cmpOut (parseQ {} t) (engineQ CssVerif.Gen.C17Grammar.mediaQueryAlone t) showMQ)
+    | none => (m, "bad-op")
+  | ["cmpl", f, t] =>
+    match decBool f, decToks t with
+    | some f, some t =>
+      (m, cmpOut (parseL false f {} t) (engineL CssVerif.Gen.C17Grammar.mediaList CssVerif.Gen.C17Grammar.mediaQueryPartof f t) showItems)
+    | _, _ => (m, "bad-op")
   | _ => (m, "bad-op")
 
 def main : IO Unit := serveSt ({} : ML) step
